@@ -303,6 +303,62 @@ PROPS['C12'] = {
 }
 
 
+PROPS['C14'] = {
+    'theorems': ['RQ.Args.C14_options', 'RQ.Args.C14_push', 'RQ.Args.C14_same'],
+    'verdict': 'SPEC',
+    'jobs': push_jobs(['inv=2'], ['inv=3']),
+    'nontrivial': lambda l: any(o in l.split('|=>|')[0] for o in ('--mmap', ' -v', '--stats', '--color', '-A multiapply')) or ' -q' not in l.split('|=>|')[0],
+    'histogram': push_hist,
+    'rule': PUSH_RULE + "; every invocation draws its presentation/loader options at random: -q | -v | -v -v | -q -v | none, "
+            "--mmap (25%), --stats (10%), --color always|never (20%), -A multiapply (10%); trees contain zero-length source "
+            "files, series contain zero-length patch files, 45% failing series. non-trivial = an invocation with a "
+            "presentation option other than plain -q",
+    'explanation': "Theorem C14_options/C14_push/C14_same: in the option model, removing or adding -q, -v, --mmap, --stats, "
+                   "--color X, -A X anywhere in an invocation yields the same configuration, hence the same outcome and world "
+                   "of push - the driver model has no presentation parameter at all. On the implementation: every generated "
+                   "invocation, whatever its presentation options, must produce exactly the exit status and tree of that "
+                   "option-free model (and of pushSpec).",
+    'trusted': PUSH_TRUSTED,
+    'assumptions': ["concurrent external modification under --mmap is outside the claim (documented caveat of the tool)"],
+}
+PROPS['C09'] = {
+    'theorems': ['RQ.Abs.C09_applyRange_append', 'RQ.Abs.C09_failed_is_prefix', 'RQ.Abs.applyRange_success_no_rej', 'RQ.Abs.C20_series'],
+    'verdict': 'SPEC',
+    'jobs': push_jobs(['inv=4', 'patches=5'], ['inv=4', 'patches=6']),
+    'nontrivial': lambda l: l.split('|=>|')[-1].count('exit=') > 1,
+    'histogram': push_hist,
+    'rule': PUSH_RULE + "; here 1-4 consecutive invocations per workspace with goals drawn from -a, none (=1), N in 0..n+1, a "
+            "patch name, different thread counts/backup modes per invocation; after each invocation pushSpec is evaluated on "
+            "the tree the implementation left, so every split is compared with the specification of a single push from that "
+            "state. non-trivial = more than one invocation",
+    'explanation': "Theorems on the specification of the application phase (RQ.Abs.applyRange, which RQ.Abs.C05_apply_refines "
+                   "ties to the driver model): applying r1 ++ r2 = applying r1, then r2 on the resulting tree if r1 applied "
+                   "completely (C09_applyRange_append); a failing range leaves exactly the tree of its applied prefix "
+                   "(C09_failed_is_prefix), so the next push starts from the same state and stops at the same patch; "
+                   "C20_series. Real runs: each workspace is pushed in 1-4 invocations and every intermediate and final tree, "
+                   ".pc and reject files must equal pushSpec and the model.",
+    'trusted': PUSH_TRUSTED,
+    'assumptions': ["that the tree between two invocations equals the flushed in-memory state is established by the correspondence run (model saveAll vs real tree), not by a theorem"],
+}
+PROPS['C13'] = {
+    'theorems': ['RQ.Write.writeRej_eq', 'RQ.Write.C13_rej_parses', 'RQ.Write.C13_no_rej_on_success'],
+    'verdict': 'SPEC',
+    'jobs': push_jobs(['inv=2'], ['inv=3']),
+    'nontrivial': lambda l: '2e72656a:' in l.split('|=>|')[-1],
+    'histogram': push_hist,
+    'rule': PUSH_RULE + "; failures are injected in any file patch of the failing patch (corrupted context or removed lines, "
+            "create over existing, delete mismatch, missing file) and several file patches of it may fail. non-trivial = a "
+            "reject file was written",
+    'explanation': "Theorem C13_rej_parses: for every file patch that came out of the parser and every report with a failed hunk, "
+                   "the reject text (header + failed hunks) parses to exactly one file patch with the same names, rename flag, "
+                   "modes, hashes whose hunks are the failed hunks in order with the same sides and start lines; "
+                   "C13_no_rej_on_success: a completely applied range renders no reject. Which rejects exist and their bytes: "
+                   "pushSpec (rejects only for failing file patches of the failing patch, if the directory exists in the final "
+                   "tree) is compared with the real tree on every run.",
+    'trusted': PUSH_TRUSTED,
+}
+
+
 def field(line, name):
     m = re.search(r'(?:^| )' + re.escape(name) + r'=(\S*)', line)
     return m.group(1) if m else None
